@@ -1,4 +1,5 @@
 import TantivyModel.Proofs.Merge
+import TantivyModel.Proofs.MergeSteps3
 /-!
 # C04 — Merging never changes the logical content of the index
 
@@ -400,5 +401,63 @@ theorem C04_first_cursor_counterexample :
     publishedUids (commit (endMerge st ⟨[2, 1], mergeEntries q [b, a] 0 3, 0⟩) 6) = [20, 10] ∧
     publishedUids (commit (endMerge st ⟨[1, 2], mergeEntries q [a, b] 0 3, 0⟩) 6) = [] := by
   decide
+
+/-! ## all event sequences -/
+
+/-- MERGES ARE INVISIBLE, for every event sequence. Run the writer machine (`Sys`: worker
+flushes, `delete_term`, `commit`, `rollback`, `delete_all_documents`, merge starts on whatever
+ids — committed or uncommitted register, target opstamp by `mergeTarget`, result computed by
+`merge()` from the entries as they are then — and merge ends, interleaved in any order, one merge
+in flight at a time) next to the sequential replay `Abs`, in which `startMerge` / `endMerge` do
+nothing. After ANY sequence of events the documents a searcher sees and the documents the next
+commit would publish are those of the replay, up to order. No hypothesis about cursors remains:
+that the merged entry takes its cursor AFTER `advance_deletes` (so all sources share it), that
+committed sources are already advanced to the target, the `contains_all` staleness rule and
+the reconciliation in `end_merge` are exactly what the invariant (`Proofs/MergeInv.lean`, `Inv`,
+`RunInv`) needs to go through every step. -/
+theorem C04_merge_invisible_all_traces (evs : List Ev) :
+    (pubDocs (Sys.init.run evs).st).Perm (Abs.init.run evs).pub ∧
+    (pendDocs (Sys.init.run evs).st).Perm (Abs.init.run evs).pend :=
+  (run_all evs Sys.init Abs.init inv_init rel_init).2
+
+/-- in terms of the ids a searcher sees (`publishedUids` is what the driver prints) -/
+theorem C04_published_uids_all_traces (evs : List Ev) :
+    (publishedUids (Sys.init.run evs).st).Perm ((Abs.init.run evs).pub.map (·.uid)) := by
+  have h := (C04_merge_invisible_all_traces evs).1
+  have e : publishedUids (Sys.init.run evs).st = (pubDocs (Sys.init.run evs).st).map (·.uid) := by
+    simp only [publishedUids, pubDocs, List.map_flatten, List.map_map]
+    rfl
+  rw [e]
+  exact h.map _
+
+/-- a merge that became stale is never published: whatever happened in between (any event
+sequence), a merge whose updater was replaced by a rollback, or whose sources are no longer all
+in one register, leaves the registers and meta.json untouched when it ends — and by
+`C04_merge_invisible_all_traces` every merge that IS swapped in carries exactly its sources'
+documents. -/
+theorem C04_stale_merge_never_published (evs : List Ev) (r : Running)
+    (hrun : (Sys.init.run evs).running = some r)
+    (h : r.epoch ≠ (Sys.init.run evs).st.epoch ∨
+      (containsAll (Sys.init.run evs).st.uncommitted r.sources = false ∧
+       containsAll (Sys.init.run evs).st.committed r.sources = false)) :
+    ((Sys.init.run evs).step .endMerge).st = (Sys.init.run evs).st := by
+  simp only [Sys.step, hrun]
+  exact C04_merge_invisible_discarded true _ r h
+
+/-- a trace with everything in it: two commits, a merge of the committed segments started, a
+delete committed while it runs, the merge ends (reconciliation), a second merge of uncommitted
+segments overtaken by a rollback (discarded) -/
+def exTrace : List Ev :=
+  [.addSeg [⟨10, [1]⟩, ⟨11, [2]⟩], .commit, .addSeg [⟨12, [1]⟩], .commit,
+   .startMerge [0, 1], .delete 1, .addSeg [⟨13, [1]⟩], .commit, .endMerge,
+   .addSeg [⟨14, [3]⟩], .addSeg [⟨15, [3]⟩], .startMerge [4, 5], .delete 3, .rollback, .endMerge,
+   .addSeg [⟨16, [2]⟩], .delete 2, .commit]
+
+example : publishedUids (Sys.init.run exTrace).st = [13] := by decide
+example : publishedUids (Sys.init.run (exTrace.take 9)).st = [13, 11] := by decide
+example : (Abs.init.run exTrace).pub.map (·.uid) = [13] := by decide
+example : ((Sys.init.run (exTrace.take 9)).st.committed.map (·.segId)) = [3, 2] := by decide
+example : ∃ r, (Sys.init.run (exTrace.take 14)).running = some r
+    ∧ r.epoch ≠ (Sys.init.run (exTrace.take 14)).st.epoch := ⟨_, rfl, by decide⟩
 
 end TantivyModel.C04
